@@ -149,6 +149,7 @@ func checkC10(c *Ctx) {
 		}
 	}
 	c.c10Paths()
+	c.c10LiteralPath()
 	// what writeIndex reports as written is what a fresh process will read: the temporary
 	// index is installed only after a successful flush and close (decided by C11's rule)
 	// a purged mailbox stays gone across a restart: the index goes first (decided by C11), so a
@@ -529,6 +530,13 @@ func (c *Ctx) errNotSwallowed(rule string, fns []*ssa.Function, pick func(name s
 
 // errNotSwallowedCalls is errNotSwallowed with the selection made on the call itself.
 func (c *Ctx) errNotSwallowedCalls(rule string, fns []*ssa.Function, pickCall func(*ssa.Call) (string, bool), allowExcuse bool, consequence string) int {
+	return c.errNotSwallowedCallsX(rule, fns, pickCall, allowExcuse, consequence, nil)
+}
+
+// errNotSwallowedCallsX additionally rejects, on the failure edge, any return for which
+// misreport gives a reason (e.g. the failure handed to the caller as a verdict the caller
+// treats as harmless).
+func (c *Ctx) errNotSwallowedCallsX(rule string, fns []*ssa.Function, pickCall func(*ssa.Call) (string, bool), allowExcuse bool, consequence string, misreport func(ret *ssa.Return) string) int {
 	r, p := c.R, c.P
 	n := 0
 	ord := map[string]int{}
@@ -631,6 +639,24 @@ func (c *Ctx) errNotSwallowedCalls(rule string, fns []*ssa.Function, pickCall fu
 				if bad := (&eng.Search{Target: succRet, Edge: func(b *ssa.BasicBlock, k int) bool { return !excuse(b, k) }}).FromBlockStart(st); bad != nil {
 					r.Bad(rule, cons, p.InstrPos(bad), "when %s at %s fails, %s can still report success here: %s", short, p.InstrPos(call), shortFn(fn), consequence)
 					return
+				}
+				if misreport != nil {
+					why := ""
+					mis := func(in ssa.Instruction) bool {
+						ret, ok := in.(*ssa.Return)
+						if !ok || eng.IsRecoverBlock(ret.Block()) {
+							return false
+						}
+						if w := misreport(ret); w != "" {
+							why = w
+							return true
+						}
+						return false
+					}
+					if bad := (&eng.Search{Target: mis, Edge: func(b *ssa.BasicBlock, k int) bool { return !excuse(b, k) }}).FromBlockStart(st); bad != nil {
+						r.Bad(rule, cons, p.InstrPos(bad), "when %s at %s fails, %s %s: %s", short, p.InstrPos(call), shortFn(fn), why, consequence)
+						return
+					}
 				}
 			}
 			r.Ok(rule, cons, p.InstrPos(call), "every return on the failure edge reports an error")
@@ -1103,5 +1129,55 @@ func (c *Ctx) c10Paths() {
 		default:
 			r.Ok("C10/PATH/agree", cons, p.Pos(byHash.Pos()), "both = %s", a[f])
 		}
+	}
+}
+
+// c10LiteralPath: the configured storage path is a directory name, not a pattern. Delivery
+// builds its paths by joining onto it; rediscovery after a restart must read that same literal
+// directory. A call that interprets its argument as a pattern (Glob, Match, a regular
+// expression) and is given a string built from the configured path finds nothing — or
+// something else — when the path contains a pattern character ('[', '*', '?', '\\'), so a
+// restarted store reports no mailboxes although all mail is on disk.
+func (c *Ctx) c10LiteralPath() {
+	r, p := c.R, c.P
+	rule := "C10/DISCOVER/literal-path"
+	r.Rule(rule, "in the file store no pattern-interpreting call (filepath.Glob/Match, path.Match, fs.Glob, regexp compile/match) receives a pattern built from the configured storage path (Store.mailPath, mbox.path, mbox.indexPath): rediscovery reads the literal directories delivery wrote")
+	sinks := map[string]int{
+		"path/filepath.Glob": 0, "path/filepath.Match": 0, "path.Match": 0, "io/fs.Glob": 1,
+		"regexp.Compile": 0, "regexp.MustCompile": 0, "regexp.MatchString": 0, "regexp.Match": 0, "regexp.CompilePOSIX": 0, "regexp.MustCompilePOSIX": 0,
+	}
+	var pathFields []string
+	for _, tf := range [][2]string{{"Store", "mailPath"}, {"mbox", "path"}, {"mbox", "indexPath"}} {
+		if f := p.OptField(fileRel, tf[0], tf[1]); f != nil {
+			pathFields = append(pathFields, "."+f.Name())
+		}
+	}
+	nBad, nFn := 0, 0
+	ord := map[string]int{}
+	for _, fn := range pkgFuncs(p, fileRel) {
+		fn := fn
+		nFn++
+		eng.EachInstr(fn, func(in ssa.Instruction) {
+			cc := eng.CallOf(in)
+			if cc == nil {
+				return
+			}
+			name := eng.CalleeName(cc)
+			idx, isSink := sinks[name]
+			if !isSink || idx >= len(cc.Args) {
+				return
+			}
+			expr := exprString(cc.Args[idx], nil, 0)
+			for _, pf := range pathFields {
+				if strings.Contains(expr, pf+",") || strings.Contains(expr, pf+")") || strings.Contains(expr, pf+"]") || strings.Contains(expr, pf+"+") || strings.HasSuffix(expr, pf) {
+					nBad++
+					r.Bad(rule, siteCons(p, in, ord, "pattern"), p.InstrPos(in), "%s is given a pattern built from the configured storage path (%s): with a path that contains '[', '*', '?' or a backslash the pattern no longer names the directories delivery wrote, so %s finds no (or other) mailboxes after a restart while access by name still works", name, expr, shortFn(fn))
+					return
+				}
+			}
+		})
+	}
+	if nBad == 0 {
+		r.Ok(rule, "file-store", "", "no pattern-interpreting call in the %d functions of the file store takes the storage path", nFn)
 	}
 }
